@@ -10,11 +10,14 @@ import (
 	utils "github.com/alibaba/RedisShake/redis-shake/common"
 )
 
+// buffer of the bufio.Reader in front of the loader on the channel path (small: refills split the loader's requests)
+const c01ChanBuf = 64
+
 // the channel path used by sync/restore/decode: utils.NewRDBLoader (only fed well-formed files:
 // an error there aborts the process from another goroutine)
 func runC01chan(data []byte) string {
 	var nread atomic2.Int64
-	br := bufio.NewReaderSize(bytes.NewReader(data), 4096)
+	br := bufio.NewReaderSize(bytes.NewReader(data), c01ChanBuf)
 	ch := utils.NewRDBLoader(br, &nread, 4)
 	var sb strings.Builder
 	sb.WriteString("h=ok")
